@@ -307,9 +307,119 @@ Proof.
 Qed.
 Print Assumptions C11_range_answer_survives_pushes.
 
-(* a delivery whose store write fails leaves the repaired standby untouched (in particular its last sequence
-   number), so the retransmission that follows is applied; together with C11_converges: failed attempts anywhere
-   in an admissible delivery do not change the outcome *)
-Theorem C11_failed_delivery_harmless : forall rc q, recv_fail repaired rc q = rc.
-Proof. reflexivity. Qed.
-Print Assumptions C11_failed_delivery_harmless.
+(* fault sequences: a delivery whose store write fails (the handler returns the error; today lastSeq has already been
+   overwritten, the repaired receiver leaves it alone) followed by the retransmission of the same message has exactly
+   the effect of one successful delivery — for every flag set, HEAD's included.  With C11_converges /
+   C11_converges_head: failed attempts that are retransmitted before anything newer do not change the outcome. *)
+Theorem C11_failed_then_retransmitted : forall fl rc q, recv_step fl (recv_fail fl rc q) q = recv_step fl rc q.
+Proof. exact failed_then_retransmitted. Qed.
+Print Assumptions C11_failed_then_retransmitted.
+
+(* ------------------------------------------------------------------ /repo HEAD's receiver *)
+(* HEAD (Model.head, and every flag set that applies whatever it is handed, releases the previous checkpoint's
+   reservations and releases pool-aware) never compares sequence numbers.  It converges — store AND pools — for
+   every history and every delivery in which a message is delivered again only while no LATER message of the same
+   session has been delivered (delivery_latest: in-order delivery plus duplicate suppression by the transport; its
+   complement is exactly the recorded finding stale-redelivery-applied, see C11_converges_today_refuted). *)
+Theorem C11_converges_head :
+  forall g0 cap g fl evs d,
+  f_stale fl = true -> f_drop fl = false -> f_relall fl = false ->
+  g <> 0%N -> (forall e, In e evs -> s_srg (fst e) = g) -> (N.of_nat (length evs) < n64)%N ->
+  let reqs := snd (sender_run [(g, (0%N, new_ring cap))] evs) in
+  delivery_latest reqs 0 d (length reqs) ->
+  rc_store (recv_run fl (mkrecv [] [] g0) d) = expected_store (live_run evs).
+Proof. exact converges_head. Qed.
+Print Assumptions C11_converges_head.
+
+Theorem C11_pools_exact_head :
+  forall g0 cap g fl evs d,
+  f_stale fl = true -> f_drop fl = false -> f_relall fl = false ->
+  g <> 0%N -> (forall e, In e evs -> s_srg (fst e) = g) -> (N.of_nat (length evs) < n64)%N ->
+  fresh g0 ->
+  (forall i, (i <= length evs)%nat -> uniq g0 (live_run (firstn i evs))) ->
+  let reqs := snd (sender_run [(g, (0%N, new_ring cap))] evs) in
+  delivery_latest reqs 0 d (length reqs) ->
+  forall x sid, lease_at (rc_reg (recv_run fl (mkrecv [] [] g0) d)) x = Some sid <->
+                In (x, sid) (expected_leases g0 (live_run evs)).
+Proof. exact pools_exact_head. Qed.
+Print Assumptions C11_pools_exact_head.
+
+Example C11_head_nonvacuous :
+  (* session 1 created, renewed with a new address, session 2 created and released; delivery with a duplicate of the
+     newest message of session 1 (seq 2, after seq 3 of session 2 was delivered) and of the release *)
+  let s1 := ex_sess 1 (Some ex_a) 1 in
+  let s1' := ex_sess 1 (Some ex_b) 1 in
+  let s2 := ex_sess 2 (Some ex_a) 1 in
+  let evs := [(s1, false); (s1', false); (s2, false); (s2, true)] in
+  let d := [ex_q 1 false s1; ex_q 2 false s1'; ex_q 3 false s2; ex_q 2 false s1'; ex_q 4 true s2; ex_q 4 true s2; ex_q 2 false s1'] in
+  f_stale head = true /\ f_drop head = false /\ f_relall head = false /\
+  (forall i, (i <= length evs)%nat -> uniq ex_reg (live_run (firstn i evs))) /\
+  delivery_latest (snd (sender_run [(1%N, (0%N, new_ring 8))] evs)) 0 d 4 /\
+  leases_of (rc_reg (recv_run head (mkrecv [] [] ex_reg) d)) = [((4, 1, ex_b)%N, 1%N)] /\
+  rc_store (recv_run head (mkrecv [] [] ex_reg) d) = [((1, 1)%N, s2c s1')].
+Proof.
+  cbv zeta. split; [reflexivity|]. split; [reflexivity|]. split; [reflexivity|]. split; [ex_uniq|]. split.
+  - eapply dv_next; [vm_compute; reflexivity|]. eapply dv_next; [vm_compute; reflexivity|].
+    eapply dv_next; [vm_compute; reflexivity|].
+    eapply (dv_dup _ 3 1); [lia|vm_compute; reflexivity| |].
+    { intros j q' Hj. assert (j = 2%nat) by lia. subst j. vm_compute. intros E; inversion E; subst. discriminate. }
+    eapply dv_next; [vm_compute; reflexivity|].
+    eapply (dv_dup _ 4 3); [lia|vm_compute; reflexivity|intros j q' Hj; lia|].
+    eapply (dv_dup _ 4 1); [lia|vm_compute; reflexivity| |].
+    { intros j q' Hj. assert (j = 2 \/ j = 3)%nat by lia. destruct H; subst j; vm_compute; intros E; inversion E; subst; discriminate. }
+    apply dv_nil.
+  - vm_compute. split; reflexivity.
+Qed.
+Print Assumptions C11_head_nonvacuous.
+
+(* ------------------------------------------------------------------ bulk sync *)
+(* A fresh standby joins after ANY history evs1 of the SRG on the active node (backlog wrapped or not): BulkSync
+   (server.go: latest live checkpoint of every session in the window; or, repaired, the session tables when the
+   window does not reach back to what the standby has), then any further history evs2 delivered in order by the live
+   stream.  Afterwards the standby's store holds exactly the sessions live on the active node, nothing panicked, and
+   the stream position is the sender's.  For flag sets that always replay the window (HEAD, f_window) the hypothesis
+   [window_covers] — every live session still has an entry in the retained window — is needed; it is exactly what the
+   recorded finding bulk-sync-misses-sessions-older-than-backlog violates (C11_bulk_window_head_refuted).
+   PARTIAL with respect to the property: the pool reservations after a bulk sync are compared by the correspondence
+   check only (no theorem). *)
+Theorem C11_bulk_then_stream_store_converges_partial :
+  forall fl g0 cap g evs1 evs2,
+  f_range fl = false -> f_stale fl = true -> f_bulk fl = false ->
+  g <> 0%N -> (forall e, In e (evs1 ++ evs2) -> s_srg (fst e) = g) ->
+  (0 < cap <= max_make)%Z -> (Z.of_nat (length (evs1 ++ evs2)) < two63 - 1)%Z -> evs1 <> [] ->
+  (f_window fl = true -> window_covers cap evs1 g) ->
+  let y := sys_run fl (sys_init cap [g] g0)
+             (ev_ops evs1 ++ [OBulk g] ++ ev_ops evs2 ++ repeat (ODeliver g) (length evs2)) in
+  y_live y = live_run (evs1 ++ evs2) /\ y_panics y = O /\ next_of y g = length (y_sent y) /\
+  forall k, aget keyeqb k (rc_store (y_recv y)) = aget keyeqb k (expected_store (y_live y)).
+Proof. exact bulk_then_stream. Qed.
+Print Assumptions C11_bulk_then_stream_store_converges_partial.
+
+(* HEAD without the coverage hypothesis: capacity 2, three sessions created, fresh standby, bulk sync — session 1 is
+   missing on the standby *)
+Theorem C11_bulk_window_head_refuted :
+  exists cap evs1,
+  let y := sys_run head (sys_init cap [1%N] ex_reg) (ev_ops evs1 ++ [OBulk 1]) in
+  next_of y 1 = length (y_sent y) /\ y_panics y = O /\
+  exists k, aget keyeqb k (rc_store (y_recv y)) = None /\ aget keyeqb k (expected_store (y_live y)) <> None.
+Proof.
+  exists 2%Z, [(ex_sess 1 (Some ex_a) 1, false); (ex_sess 2 (Some ex_b) 1, false); (ex_sess 3 None 0, false)].
+  vm_compute. split; [reflexivity|]. split; [reflexivity|]. exists (1, 1)%N. split; [reflexivity|discriminate].
+Qed.
+Print Assumptions C11_bulk_window_head_refuted.
+
+Example C11_bulk_nonvacuous :
+  (* the same wrapped history: repaired-with-HEAD's-receiver (snapshot when behind) converges; HEAD converges when the
+     window covers (capacity 3) *)
+  let evs1 := [(ex_sess 1 (Some ex_a) 1, false); (ex_sess 2 (Some ex_b) 1, false); (ex_sess 3 None 0, false)] in
+  let evs2 := [(ex_sess 2 (Some ex_b) 1, true)] in
+  let fixed := mkflags false true false false false false in
+  let ops := ev_ops evs1 ++ [OBulk 1] ++ ev_ops evs2 ++ repeat (ODeliver 1) (length evs2) in
+  map fst (rc_store (y_recv (sys_run fixed (sys_init 2 [1%N] ex_reg) ops))) = [(1, 1); (1, 3)]%N /\
+  map fst (rc_store (y_recv (sys_run head (sys_init 3 [1%N] ex_reg) ops))) = [(1, 1); (1, 3)]%N /\
+  window_covers 3 evs1 1.
+Proof.
+  cbv zeta. split; [vm_compute; reflexivity|]. split; [vm_compute; reflexivity|].
+  apply window_covers_unwrapped. vm_compute. lia.
+Qed.
+Print Assumptions C11_bulk_nonvacuous.
